@@ -33,10 +33,10 @@ structure TaskSem (t : Task) : Prop where
   finFinal : t.ref.finishTimestamp.isSome = true → isFinalTaskState t.ref.status.state = true
   noDs : t.ref.deletedStatus = none
 
-theorem podTask_sem {p : PodObj} {t : Task} (hc : p.pod.creationTimestamp.isSome = true)
-    (h : podTask p = some t) : TaskSem t := by
+theorem podTask_sem {now : Time} {p : PodObj} {t : Task} (hc : p.pod.creationTimestamp.isSome = true)
+    (h : podTask now p = some t) : TaskSem t := by
   unfold podTask Pod.task at h
-  cases hr : p.pod.taskRef with
+  cases hr : p.pod.taskRef now with
   | none => simp [hr] at h
   | some r =>
     simp only [hr, Option.some.injEq] at h
@@ -70,6 +70,8 @@ theorem podTask_sem {p : PodObj} {t : Task} (hc : p.pod.creationTimestamp.isSome
             · simp only [Option.some.injEq] at hf; subst hf; exact hc
       refine ⟨?_, ?_, rfl⟩
       · intro hres
+        show (Pod.recordedFinish now p.pod fin).isSome = true
+        rw [Pod.recordedFinish_isSome]
         apply hfin'
         simp only at hres
         unfold Pod.result at hres
@@ -81,7 +83,7 @@ theorem podTask_sem {p : PodObj} {t : Task} (hc : p.pod.creationTimestamp.isSome
           · cases hres
           · cases hres
       · intro hfs
-        have hpf := hfin hfs
+        have hpf := hfin ((Pod.recordedFinish_isSome now p.pod fin) ▸ hfs)
         show isFinalTaskState p.pod.state = true
         unfold Pod.state
         simp only [hpf, Bool.not_true, Bool.and_false, Bool.false_eq_true, ↓reduceIte]
